@@ -32,7 +32,7 @@ from comb_spec_searcher.exception import (
     SpecificationNotFound,
 )
 from comb_spec_searcher.rule_db import RuleDB, RuleDBForest, RuleDBForgetStrategy
-from comb_spec_searcher.strategies.rule import VerificationRule
+from comb_spec_searcher.strategies.rule import Rule, VerificationRule
 from comb_spec_searcher.strategies.strategy import EmptyStrategy
 
 PACKET_CAP = 300
@@ -109,6 +109,7 @@ def gen_pack(rng, world, flavour=None, allow_iterative=True):
                 "lazy": lazy(),
                 "split": rng.random() < 0.35,
                 "merge": dup_stats and rng.random() < 0.5,
+                "split3": rng.random() < 0.3,
             }
         )
     if not world["patterns"] and rng.random() < 0.7:
@@ -193,6 +194,9 @@ def gen_pack(rng, world, flavour=None, allow_iterative=True):
         ver.append({"t": "AtomStrategy"})
     else:
         ver.append({"t": "WordAtom"})
+    if ver[0]["t"] == "WordAtom" and rng.random() < 0.15:
+        # verification through a factory of ready-made rules, one of them for another class
+        ver[0] = {"t": "AtomTwinFactory", "foreign": rng.random() < 0.8, "foreign_first": rng.random() < 0.5}
     if rng.random() < 0.3:
         ver.append({"t": "FiatVerified", "salt": rng.randrange(1000), "pct": rng.choice([5, 15, 40]), "ignore_parent": rng.random() < 0.3})
         if rng.random() < 0.5:
@@ -600,14 +604,46 @@ class Sim:
                 f"inserted {own} keys into the table, expected {want}",
             )
 
+    def _forest_key_shifts(self, db, start, ends, rule, inserted):
+        """The keys that entered the table carry the shifts the rule really has (derived from the world, not
+        from the library): the forward key, and with reverse rules on, the key of every child."""
+        if type(rule) is not Rule:  # pylint: disable=unidiomatic-typecheck
+            return
+        st = rule.strategy
+        children = tuple(rule.children)
+        if len(children) != len(ends):
+            return
+        got = set()
+        for k in inserted:
+            try:
+                got.add((k.parent, tuple(k.children), tuple(k.shifts)))
+            except AttributeError:
+                return  # table internals renamed: this oracle goes without
+        fwd = tuple(WW.true_shifts(st, rule.comb_class, children))
+        want = [("forward", (start, tuple(ends), fwd))]
+        if db.reverse and st.is_reversible(rule.comb_class):
+            for i, l in enumerate(ends):
+                want.append((f"reverse at child {i}", (l, (start,) + tuple(ends[:i]) + tuple(ends[i + 1 :]), tuple(WW.true_reverse_shifts(fwd, i)))))
+        for what, key in want:
+            if key not in got:
+                near = sorted(k for k in got if k[0] == key[0] and k[1] == key[1])
+                raise Violation(
+                    "C11:forest-key-shifts",
+                    f"add of {rule.comb_class} -> {children} by {st!r}: the {what} key {key} (shifts derived from the world) is not among the keys "
+                    f"inserted into the table; same parent and children: {near}",
+                )
+
     def on_add_post(self, db, start, ends, rule):
         if isinstance(db, RuleDBForest) and self.key_stack:
-            now = len(db.table_method._rules)  # pylint: disable=protected-access
+            rules_list = db.table_method._rules  # pylint: disable=protected-access
+            now = len(rules_list)
             start_len, nested = self.key_stack.pop()
             if self.key_stack:
                 self.key_stack[-1][1] += now - start_len
             if self.focus in ("C11", "C04", "ALL"):
                 self._forest_keys(db, rule, now - start_len - nested)
+            if self.focus in ("C11", "C02", "ALL"):
+                self._forest_key_shifts(db, start, ends, rule, rules_list[start_len:now])
         if self.mirrors is not None:
             self.mirrors.feed(start, ends, rule)
         if self.focus in ("C19S", "ALL") and self.searcher is not None and self.searcher.expand_verified and rule.workable:
